@@ -112,7 +112,7 @@ def source_is_archive(ctx, res):
     rng = ctx.rng
     for fl in ("fd", "sd"):
         for mode in ("create", "add"):
-            for spelling in ("plain", "dotslash", "abs", "option_a", "option_A", "abs_vs_relative", "relative_vs_abs", "symlink", "hardlink"):
+            for spelling in ("plain", "dotslash", "abs", "option_a", "option_A", "abs_vs_relative", "relative_vs_abs", "symlink", "hardlink", "through_parent"):
                 for position in ("first", "middle", "last", "after_four_eos"):
                     d = ctx.fresh_dir()
                     arc = "img." + fl
@@ -130,7 +130,9 @@ def source_is_archive(ctx, res):
                         # the source is another name of the archive's file
                         (os.symlink if spelling == "symlink" else os.link)(arc if spelling == "symlink" else apath, os.path.join(d, "alias.dat"))
                     src = {"plain": arc, "dotslash": "./" + arc, "abs": apath, "option_a": arc + ",a", "option_A": arc + ",A",
-                           "abs_vs_relative": apath, "relative_vs_abs": arc, "symlink": "alias.dat", "hardlink": "alias.dat"}[spelling]
+                           "abs_vs_relative": apath, "relative_vs_abs": arc, "symlink": "alias.dat", "hardlink": "alias.dat",
+                           # out of the working directory and back in through its name: the same place, seen only by resolving against it
+                           "through_parent": f"../{os.path.basename(d)}/{arc}"}[spelling]
                     clean = src[:-2] if spelling in ("option_a", "option_A") else src
                     names = [n for n, _ in others]
                     srcs = {"first": [src] + names, "middle": [names[0], src, names[1]], "last": names + [src],
@@ -141,7 +143,7 @@ def source_is_archive(ctx, res):
                     # source goes with the absolute spelling of the archive
                     arc_arg = apath if spelling in ("abs", "relative_vs_abs") else arc
                     # a relative and an absolute spelling of one place, and links, are outside the model's lexical comparison: oracle only
-                    unmodelled = spelling in ("abs_vs_relative", "relative_vs_abs", "symlink", "hardlink")
+                    unmodelled = spelling in ("abs_vs_relative", "relative_vs_abs", "symlink", "hardlink", "through_parent")
                     status, out = D.dar(fl, ["-c" if mode == "create" else "-r", arc_arg] + srcs, cwd=d)
                     after = P.tree(d)
                     case = {"flavour": fl, "mode": mode, "spelling": spelling, "position": position}
